@@ -476,6 +476,7 @@ func Check(verifRoot, self, prop, tier string, seed uint64) (*Result, error) {
 	cov := [2]int{}
 	perProg := map[string]interface{}{}
 	var dropped []string
+	var corpusTrouble error
 	outRoot := verifRoot
 	if v := os.Getenv("VERIF_EVIDENCE_ROOT"); v != "" {
 		outRoot = v
@@ -506,7 +507,12 @@ func Check(verifRoot, self, prop, tier string, seed uint64) (*Result, error) {
 		}
 		for _, r := range pr.results {
 			if r.Err != nil {
-				return nil, &pipeline.BuildError{What: "simulator run failed", Out: r.Err.Error()}
+				// harness trouble on the corpus leaves the check undecided (exit 2) — unless another root
+				// produced a replayable violation, which stands on its own
+				if corpusTrouble == nil {
+					corpusTrouble = &pipeline.BuildError{What: "simulator run failed (" + pr.name + "/" + r.Root + ")", Out: r.Err.Error()}
+				}
+				continue
 			}
 			if r.Stats != nil {
 				total.Iterations += r.Stats.Iterations
@@ -552,6 +558,12 @@ func Check(verifRoot, self, prop, tier string, seed uint64) (*Result, error) {
 			}
 		}
 		perProg[pr.name] = perRoot
+	}
+	if corpusTrouble != nil {
+		if res.NViol == 0 {
+			return nil, corpusTrouble
+		}
+		fmt.Fprintf(os.Stderr, "note: %s; the violations below come from the other roots\n", firstLine(corpusTrouble.Error()))
 	}
 	for _, f := range findings {
 		if f.Property == prop && f.Status == "known" && total.KnownHits[f.Signature] > 0 {
